@@ -96,8 +96,10 @@ OctetsValues(T, cap) ==
   \cup (IF T.size.op = "none" THEN {Cyc(<<171, 0, 255>>, n, 0) : n \in BoundarySizes(T.size)} ELSE {})
 
 OidValues == { <<1,2>>, <<0,0>>, <<0,39>>, <<1,39,127,128>>, <<2,999,3>>, <<1,2,840,113549>>,
-               <<2,100,16383,16384,2147483647>>, <<2,40>>, <<2,47,0>> }
-RelOidValues == { <<0>>, <<127,128>>, <<8571,3,2>>, <<2147483647>>, <<1,2,3,4,5,6,7,8,9,10>> }
+               <<2,100,16383,16384,2147483647>>, <<2,40>>, <<2,47,0>>,
+               <<1,3,6,1,4,1,9363,1,5,1,10>>, <<1,3,6,1,4,1,9363,1,5,1,10,11,12>>,        \* 11 and 13 arcs
+               [i \in 1..45 |-> IF i = 1 THEN 2 ELSE i] }                                 \* 45 arcs
+RelOidValues == { <<0>>, <<127,128>>, <<8571,3,2>>, <<2147483647>>, <<1,2,3,4,5,6,7,8,9,10>>, [i \in 1..12 |-> i], [i \in 1..45 |-> 100 + i] }
 
 
 RECURSIVE Values(_, _, _)
